@@ -156,6 +156,8 @@ func (g *Gateway) subscriptionHandler(w http.ResponseWriter, r *http.Request) {
 				return
 			}
 
+			applyVariableDefaults(request, operation)
+
 			planningContext := &planner.PlanningContext{
 				Request:    request,
 				Operation:  operation,
